@@ -1,16 +1,46 @@
 (* C02 — ISO8583 wire format conforms to the documented layout, in both directions. *)
-From Coq Require Import List Arith NArith ZArith.
+From Coq Require Import List Bool Arith NArith ZArith.
 Require Import CU.model.Prim CU.model.Types CU.model.Unicode CU.model.Codec CU.model.Dates CU.model.Iso CU.spec.IsoSpec.
 Require Import CU.proofs.IsoWire.
+Require Import CU.gen.GenConfig.
 Import ListNotations.
 
 (* the message as the encoder sees it after PDS packing: carriers filled with the packed chunks (C12 says which) *)
 Definition packed (cfg : cfgT) (m m1 : dict) : Prop :=
   exists chunks, pds_to_de m = Ok chunks /\ assign_pds m chunks (pds_bits cfg) = Ok m1.
 
+(* The library also accepts, for an int element, a numeral given as str (it applies int() to it) and, for a datetime
+   element, a canonical ISO string; IsoSpec.elem_text only renders values of the element's own Python type.
+   `native_valueb` says a value is of its element's own type, `as_native` reads such a str as the int / datetime it
+   denotes (identity on every other value). *)
+Definition native_valueb (c : fieldcfg) (v : value) : bool :=
+  match f_ptype c, v with
+  | PTInt, VStr _ | PTDate, VStr _ => false
+  | _, _ => true
+  end.
+Definition as_native (c : fieldcfg) (v : value) : value :=
+  match f_ptype c, v with
+  | PTInt, VStr s => match py_int s with Some z => VInt z | None => v end
+  | PTDate, VStr s => match parse_iso s with Some d => VDate d | None => v end
+  | _, _ => v
+  end.
+(* every present element holds a value of its own Python type *)
+Definition typed_values_native (cfg : cfgT) (m1 : dict) : bool :=
+  forallb (fun n => match cfg_get cfg n, lookup m1 (KDE n) with
+                    | Some c, Some v => native_valueb c v
+                    | _, _ => true
+                    end) (present_elems m1).
+(* IsoSpec.wire_body with each value read through as_native *)
+Definition wire_body_coerced (cfg : cfgT) (cd : codec) (m : dict) : option bytes :=
+  concat_opt (map (fun n => match cfg_get cfg n, lookup m (KDE n) with
+                            | Some c, Some v => elem_wire c cd (as_native c v)
+                            | _, _ => None
+                            end) (present_elems m)).
+
 (* Whenever encoding returns, the bytes are exactly MTI, then the 128-bit bitmap (bit 1 set; bit n set iff element n
    is present; 16 raw bytes or their 32 lowercase hex characters), then the present elements in ascending order, each
-   rendered per its configuration (IsoSpec.elem_wire). *)
+   rendered per its configuration (IsoSpec.elem_wire): unconditionally for the values read through as_native, and for
+   the values as given whenever they are all of their element's own type. *)
 Theorem C02_encode : forall cfg cd hexbm m b, dumps cfg cd hexbm m = Ok b ->
   exists m1 mti bm body,
     packed cfg m m1 /\
@@ -18,7 +48,8 @@ Theorem C02_encode : forall cfg cd hexbm m b, dumps cfg cd hexbm m = Ok b ->
     (match lookup m KMTI with Some (VStr s) => encode cd s = Ok mti | _ => mti = [] end) /\
     length bm = 16 /\
     (forall n, 1 <= n <= 128 -> bit_set bm n = (Nat.eqb n 1 || existsb (Nat.eqb n) (present_elems m1))) /\
-    wire_body cfg cd m1 = Some body.
+    wire_body_coerced cfg cd m1 = Some body /\
+    (typed_values_native cfg m1 = true -> wire_body cfg cd m1 = Some body).
 Proof. exact c02_encode. Qed.
 Print Assumptions C02_encode.
 
@@ -45,3 +76,43 @@ Print Assumptions C02_overlength_refused_bytes.
 (* decoding direction: a message of the documented layout decodes to the values it carries — this is C08_sound
    (each value is the content of its own bytes) together with C01_roundtrip; the harness additionally compares the
    decoder with an independent reading of the same bytes. *)
+
+(* the documented example of iso8583.py (DE2 only: bitmap c0 00.., "16" + PAN), and a message with an LLVAR, a fixed
+   text and a fixed int element, under the packaged configuration and latin_1 *)
+Definition ex_pan : str := [52; 52; 52; 52; 53; 53; 53; 53; 54; 54; 54; 54; 55; 55; 55; 55]%N.       (* 4444555566667777 *)
+Definition ex_dumps (hexbm : bool) (m : dict) : result bytes :=
+  match codec_named [108; 97; 116; 105; 110; 95; 49]%N with                                       (* latin_1 *)
+  | Some cd => dumps packaged_bit_config cd hexbm m
+  | None => Unmodelled
+  end.
+
+Example C02_example_doc :
+  ex_dumps false [(KMTI, VStr [49; 49; 52; 52]%N); (KDE 2, VStr ex_pan)]
+  = Ok (map byte_of_N ([49; 49; 52; 52] ++ [192] ++ repeat 0 15 ++ [49; 54] ++ ex_pan)%N).
+Proof. vm_compute. reflexivity. Qed.
+
+Example C02_example_doc_hex :
+  ex_dumps true [(KMTI, VStr [49; 49; 52; 52]%N); (KDE 2, VStr ex_pan)]
+  = Ok (map byte_of_N ([49; 49; 52; 52] ++ [99; 48] ++ repeat 48 30 ++ [49; 54] ++ ex_pan)%N).
+Proof. vm_compute. reflexivity. Qed.
+
+Example C02_example :
+  ex_dumps false [(KMTI, VStr [49; 49; 52; 52]%N); (KDE 2, VStr ex_pan);
+                  (KDE 3, VStr [49; 50; 51; 52; 53; 54]%N); (KDE 4, VInt 9999)]
+  = Ok (map byte_of_N ([49; 49; 52; 52]                                   (* MTI 1144 *)
+                       ++ [240] ++ repeat 0 15                            (* bits 1-4 *)
+                       ++ [49; 54] ++ ex_pan                              (* DE2 LLVAR: "16" + 16 digits *)
+                       ++ [49; 50; 51; 52; 53; 54]                        (* DE3 fixed 6 *)
+                       ++ [48; 48; 48; 48; 48; 48; 48; 48; 57; 57; 57; 57])%N).   (* DE4 int, zero-padded to 12 *)
+Proof. vm_compute. reflexivity. Qed.
+
+(* a numeral given as str for the int element DE4 encodes to the same bytes: the case C02_encode covers through
+   as_native (IsoSpec.wire_body itself is undefined on it) *)
+Example C02_example_coerced :
+  ex_dumps false [(KMTI, VStr [49; 49; 52; 52]%N); (KDE 4, VStr [57; 57; 57; 57]%N)]
+  = ex_dumps false [(KMTI, VStr [49; 49; 52; 52]%N); (KDE 4, VInt 9999)]
+  /\ match codec_named [108; 97; 116; 105; 110; 95; 49]%N with
+     | Some cd => wire_body packaged_bit_config cd [(KMTI, VStr [49; 49; 52; 52]%N); (KDE 4, VStr [57; 57; 57; 57]%N)] = None
+     | None => False
+     end.
+Proof. vm_compute. split; reflexivity. Qed.
